@@ -10,19 +10,24 @@ import (
 	"encoding/hex"
 	"fmt"
 	"math/rand"
+	"os"
+	"path/filepath"
 	"regexp"
 	"sort"
 	"strconv"
 	"strings"
+	"time"
 
 	"github.com/lindb/roaring"
 
+	"github.com/lindb/lindb/index"
 	"github.com/lindb/lindb/index/model"
 	v1 "github.com/lindb/lindb/index/v1"
 	"github.com/lindb/lindb/kv"
 	"github.com/lindb/lindb/kv/table"
 	"github.com/lindb/lindb/kv/version"
 	"github.com/lindb/lindb/pkg/trie"
+	"github.com/lindb/lindb/sql/stmt"
 
 	"github.com/lindb/lindb/zzverif/internal/core"
 )
@@ -257,6 +262,70 @@ func genKeys(r *rand.Rand, tier string, big bool) (keys [][]byte, shape string) 
 	return keys, shape
 }
 
+// genKeysTarget grows a key set one key at a time until the trie has exactly `target` labels
+// (byLabels) or nodes (!byLabels): the sizes at which the rank table (one entry per 512 bits of
+// hasChild / hasPrefix / hasSuffix) and the select table (one entry per 64 set louds bits) change
+// length. ok=false when the target was not hit exactly.
+func genKeysTarget(r *rand.Rand, target int, byLabels bool) (keys [][]byte, ok bool) {
+	set := map[string]bool{}
+	count := func() int {
+		ks := make([][]byte, 0, len(set))
+		for k := range set {
+			ks = append(ks, []byte(k))
+		}
+		sort.Slice(ks, func(i, j int) bool { return bytes.Compare(ks[i], ks[j]) < 0 })
+		vs := make([]uint32, len(ks))
+		b := trie.NewBuilder()
+		b.Build(ks, vs)
+		d := trie.VerifDump(b.Trie())
+		if byLabels {
+			return len(d.Labels)
+		}
+		return len(d.HasPrefix)
+	}
+	alpha := []byte("abcdefghijklmnopqrstuvwxyz0123456789\x00\xff")
+	newKey := func() []byte {
+		k := make([]byte, 2+r.Intn(2))
+		for i := range k {
+			k[i] = alpha[r.Intn(len(alpha))]
+		}
+		if r.Intn(4) == 0 {
+			k = append(k, randKey(r, smallAlpha, 3)...)
+		}
+		return k
+	}
+	set[string(newKey())] = true
+	set[string(newKey())+"x"] = true
+	cur := count()
+	misses := 0
+	// jump close to the target first (a key adds about 1-2 labels, ~0.3 nodes)
+	for cur < target-40 {
+		for i := 0; i < 20; i++ {
+			set[string(newKey())] = true
+		}
+		cur = count()
+	}
+	for cur != target && misses < 400 {
+		k := string(newKey())
+		if set[k] {
+			continue
+		}
+		set[k] = true
+		n := count()
+		if n > target {
+			delete(set, k)
+			misses++
+			continue
+		}
+		cur = n
+	}
+	for k := range set {
+		keys = append(keys, []byte(k))
+	}
+	sort.Slice(keys, func(i, j int) bool { return bytes.Compare(keys[i], keys[j]) < 0 })
+	return keys, cur == target
+}
+
 // genProbes: present keys, proper prefixes, extensions, neighbours, random strings, fixed edge keys.
 func genProbes(r *rand.Rand, keys [][]byte, n int) [][]byte {
 	seen := map[string]bool{}
@@ -377,6 +446,8 @@ type subject struct {
 	tag  string // "mem" or "reloaded"
 	big  bool
 	full bool // also emit layer-2 ops that are expensive on the model side
+	// machine: also diff seek / prefix against the iterator stack machine over the vectors
+	machine bool
 }
 
 func (s *subject) fail(key, format string, a ...interface{}) {
@@ -478,6 +549,12 @@ func (s *subject) lget(k []byte) {
 
 func (s *subject) iterAll(op string) {
 	var got []pair
+	defer func() {
+		if op == "iter" && s.full {
+			// the same observation against the iterator stack machine over the vectors
+			s.c.Op("siter", showPairs(got))
+		}
+	}()
 	s.c.Guard(op, func() string {
 		got = got[:0]
 		it := s.t.NewIterator()
@@ -507,6 +584,9 @@ func (s *subject) riter() {
 		}
 		return showPairs(got)
 	})
+	if s.full {
+		s.c.Op("sriter", showPairs(got))
+	}
 	want := s.m.pairs(0, len(s.m.keys))
 	for i, j := 0, len(want)-1; i < j; i, j = i+1, j-1 {
 		want[i], want[j] = want[j], want[i]
@@ -534,6 +614,7 @@ func (s *subject) seek(k []byte) {
 	m := s.m
 	var landed []pair
 	var n int
+	var seekOut string
 	s.c.Guard("seek "+hx(k), func() string {
 		it := s.t.NewIterator()
 		fp := it.Seek(k)
@@ -543,11 +624,21 @@ func (s *subject) seek(k []byte) {
 		}
 		if !it.Valid() {
 			n, landed = 0, nil
-			return fmt.Sprintf("fp=%d invalid", f)
+			seekOut = fmt.Sprintf("fp=%d invalid", f)
+			return seekOut
 		}
 		n, landed = drain(it, len(m.keys)+2)
-		return fmt.Sprintf("fp=%d n=%d %s", f, n, showPairs(landed))
+		seekOut = fmt.Sprintf("fp=%d n=%d %s", f, n, showPairs(landed))
+		return seekOut
 	})
+	if seekOut != "" && s.machine {
+		// the stack machine is only asked for the landing position and the next two keys
+		if n == 0 {
+			s.c.Op("sseek "+hx(k), seekOut)
+		} else {
+			s.c.Op("sseek "+hx(k), seekOut[:strings.Index(seekOut, " ")]+" "+showPairs(landed))
+		}
+	}
 	lb := m.lb(k)
 	wantN := len(m.keys) - lb
 	if n != wantN || (n > 0 && !bytes.Equal(landed[0].k, m.keys[lb])) {
@@ -595,6 +686,9 @@ func (s *subject) prefix(p []byte) {
 		}
 		return showPairs(got)
 	})
+	if s.machine {
+		s.c.Op("sprefix "+hx(p), showPairs(got))
+	}
 	want := s.m.withPrefix(p)
 	if !samePairs(got, want) {
 		s.fail("prefix-mismatch", "keys=%d PrefixIterator(%s) returned %d pairs, filter gives %d (or they differ)", len(s.m.keys), hx(p), len(got), len(want))
@@ -630,6 +724,7 @@ func (s *subject) queries(r *rand.Rand, probes [][]byte) {
 		if i >= nSeek {
 			break
 		}
+		s.machine = len(s.m.keys) <= 400 || i < 6
 		s.seek(k)
 		if !s.big || len(s.m.withPrefix(k)) < 200 {
 			s.prefix(k)
@@ -698,6 +793,9 @@ func trieCase(c *core.Ctx, r *rand.Rand, keys [][]byte, vals []uint32, probes []
 		s.fail("reload-failed", "Write/UnmarshalBinary failed")
 		return
 	}
+	// the serialised bytes themselves against the byte-layout model
+	c.Op("msize", strconv.Itoa(b.MarshalSize()))
+	c.Op("bytes", hx(buf.Bytes()))
 	s2 := &subject{c: c, m: m, t: t2, tag: "reloaded", big: big, full: len(keys) <= 400}
 	s2.dumpVectors(nil)
 	s2.navOps(r, 3)
@@ -1043,6 +1141,22 @@ func (s *bucketSubject) queries(r *rand.Rand, probes [][]byte) {
 	if len(vals) != len(all) {
 		c.Fail("bucket-values-mismatch", fmt.Sprintf("[%s] GetValues returned %d values, union has %d", s.tag, len(vals), len(all)))
 	}
+	// full enumeration through the prefix iterators (duplicates would show)
+	var enum []uint32
+	c.Guard("blike - pre -", func() string {
+		enum = s.b.FindValuesByLike(nil, nil, bytes.HasPrefix, nil)
+		sort.Slice(enum, func(i, j int) bool { return enum[i] < enum[j] })
+		return showU32(enum)
+	})
+	for i := 1; i < len(enum); i++ {
+		if enum[i] == enum[i-1] {
+			c.Fail("bucket-enumeration-duplicates", fmt.Sprintf("[%s] value %d is enumerated more than once", s.tag, enum[i]))
+			break
+		}
+	}
+	if len(enum) != len(all) {
+		c.Fail("bucket-enumeration-mismatch", fmt.Sprintf("[%s] enumeration returned %d values, union has %d", s.tag, len(enum), len(all)))
+	}
 	// all pairs through CollectKVs
 	c.Guard("bpairs", func() string {
 		bm := roaring.New()
@@ -1147,13 +1261,80 @@ func bucketCase(c *core.Ctx, r *rand.Rand, tier string, viaV1 bool) {
 	if len(keys) == 0 {
 		keys = [][]byte{[]byte("k")}
 	}
-	vals := genVals(r, len(keys))
 	perm := r.Perm(len(keys))
 	groups := make([][]int, ngroups)
-	for _, i := range perm {
-		g := r.Intn(ngroups)
-		groups[g] = append(groups[g], i)
+	if !viaV1 && r.Intn(3) == 0 {
+		// one flush with at least blockSize keys (=> full tries, kept as they are by the merge) and two
+		// to four small ones (=> pending tries, rebuilt): the merged bucket must enumerate every pair once
+		blockSize = []int{2, 4, 8, 16, 64}[r.Intn(5)]
+		for len(keys) < 2*blockSize+8 {
+			keys = append(keys, []byte(fmt.Sprintf("zz-extra-%04d", len(keys))))
+		}
+		sort.Slice(keys, func(i, j int) bool { return bytes.Compare(keys[i], keys[j]) < 0 })
+		perm = r.Perm(len(keys))
+		nfull := blockSize + r.Intn(blockSize+1)
+		ngroups = 3 + r.Intn(3)
+		groups = make([][]int, ngroups)
+		groups[0] = perm[:nfull]
+		rest := perm[nfull:]
+		for g := 1; g < ngroups && len(rest) > 0; g++ {
+			n := 1 + r.Intn(blockSize-1)
+			if n > len(rest) {
+				n = len(rest)
+			}
+			groups[g] = rest[:n]
+			rest = rest[n:]
+		}
+		c.Branch("bucket-full-plus-small")
+	} else {
+		for _, i := range perm {
+			g := r.Intn(ngroups)
+			groups[g] = append(groups[g], i)
+		}
 	}
+	vals := genVals(r, len(keys))
+	runBucket(c, r, blockSize, keys, vals, groups, viaV1, 14)
+}
+
+// fullTrieMergeCase (thorough tier): the block size the index merger really works with
+// (math.MaxUint16): one flush of more than 65535 keys (=> one full trie + a remainder) and two or
+// three small flushes, merged through index/v1's merger.
+func fullTrieMergeCase(c *core.Ctx, r *rand.Rand) {
+	const blockSize = 65535
+	n := blockSize + 1 + r.Intn(300)
+	set := map[string]bool{}
+	for len(set) < n+120 {
+		switch r.Intn(3) {
+		case 0:
+			set[fmt.Sprintf("host-%06d", r.Intn(4*n))] = true
+		case 1:
+			set[fmt.Sprintf("%c%c/%05d", 'a'+r.Intn(26), 'a'+r.Intn(26), r.Intn(99999))] = true
+		default:
+			k := make([]byte, 1+r.Intn(5))
+			r.Read(k)
+			set[string(k)] = true
+		}
+	}
+	var keys [][]byte
+	for k := range set {
+		keys = append(keys, []byte(k))
+	}
+	sort.Slice(keys, func(i, j int) bool { return bytes.Compare(keys[i], keys[j]) < 0 })
+	perm := r.Perm(len(keys))
+	ngroups := 3 + r.Intn(2)
+	groups := make([][]int, ngroups)
+	groups[0] = perm[:n]
+	rest := perm[n:]
+	for g := 1; g < ngroups; g++ {
+		m := len(rest) / (ngroups - g)
+		groups[g] = rest[:m]
+		rest = rest[m:]
+	}
+	c.Branch("bucket-65535-full-plus-small")
+	runBucket(c, r, blockSize, keys, genVals(r, len(keys)), groups, true, 10)
+}
+
+func runBucket(c *core.Ctx, r *rand.Rand, blockSize int, keys [][]byte, vals []uint32, groups [][]int, viaV1 bool, nprobes int) {
 	all := map[string]uint32{}
 	var sb strings.Builder
 	fmt.Fprintf(&sb, "bucket %d", blockSize)
@@ -1229,7 +1410,7 @@ func bucketCase(c *core.Ctx, r *rand.Rand, tier string, viaV1 bool) {
 		c.Branch("bucket-via-index-model")
 	}
 	c.Op("bsizes", showInts(blockSizes(store[bucketID])))
-	probes := genProbes(r, keys, 14)
+	probes := genProbes(r, keys, nprobes)
 	s := newBucketSubject(c, bucket, all, "flushed", store[bucketID])
 	s.queries(r, probes)
 	// merge: TrieBucket.Write (directly, or through index/v1's merger)
@@ -1284,6 +1465,276 @@ func bucketCase(c *core.Ctx, r *rand.Rand, tier string, viaV1 bool) {
 	s2 := newBucketSubject(c, merged, all, "merged", out)
 	s2.queries(r, probes)
 	c.Branch("bucket-merged")
+}
+
+// ---------------------------------------------------------------- index kv store on a real kv store
+
+var kvSeq int
+
+// likePatterns: patterns for indexKVStore.FindValuesByLike built around present keys.
+func likePatterns(r *rand.Rand, keys [][]byte) [][]byte {
+	out := [][]byte{[]byte("*"), []byte("**"), []byte("a*"), []byte("*a")}
+	for i := 0; i < 10; i++ {
+		k := keys[r.Intn(len(keys))]
+		if len(k) == 0 {
+			continue
+		}
+		a := r.Intn(len(k))
+		b := a + 1 + r.Intn(len(k)-a)
+		switch r.Intn(5) {
+		case 0:
+			out = append(out, append(clone(k[:b]), '*'))
+		case 1:
+			out = append(out, append([]byte{'*'}, k[a:]...))
+		case 2:
+			out = append(out, append(append([]byte{'*'}, k[a:b]...), '*'))
+		case 3:
+			out = append(out, clone(k))
+		default:
+			out = append(out, append(clone(k), 'x'))
+		}
+	}
+	return out
+}
+
+// kvstoreCase: index.NewIndexKVStore over a real kv store in a scratch directory: several
+// GetOrCreateValue + PrepareFlush + Flush rounds (index/v1 flusher writing real table files, the
+// reader loading one block per file), then GetValue / GetValues / CollectKVs / Suggest and the like
+// / regexp / equals / in dispatch of FindValuesByExpr.
+func kvstoreCase(c *core.Ctx, r *rand.Rand) {
+	dir, err := os.MkdirTemp("", "lvh-c20-*")
+	if err != nil {
+		c.Note("mkdtemp failed: " + err.Error())
+		return
+	}
+	defer os.RemoveAll(dir)
+	kvSeq++
+	name := filepath.Join(dir, fmt.Sprintf("kv-%d", kvSeq))
+	st, err := kv.GetStoreManager().CreateStore(name, kv.StoreOption{Levels: 2})
+	if err != nil {
+		c.Note("create store failed: " + err.Error())
+		return
+	}
+	defer func() { _ = kv.GetStoreManager().CloseStore(name) }()
+	family, err := st.CreateFamily("idx", kv.FamilyOption{Merger: string(v1.IndexKVMerger)})
+	if err != nil {
+		c.Note("create family failed: " + err.Error())
+		return
+	}
+	store := index.NewIndexKVStore(family, 16, time.Minute)
+	keys, shape := genKeys(r, "quick", false)
+	c.Branch("kvstore-keys-" + shape)
+	if len(keys) > 0 && len(keys[0]) == 0 {
+		keys = keys[1:] // a flush of the empty key alone is the recorded Build panic
+	}
+	if len(keys) == 0 {
+		keys = [][]byte{[]byte("k")}
+	}
+	vals := genVals(r, len(keys))
+	ngroups := 1 + r.Intn(3)
+	groups := make([][]int, ngroups)
+	for _, i := range r.Perm(len(keys)) {
+		g := r.Intn(ngroups)
+		groups[g] = append(groups[g], i)
+	}
+	const bucketID = 3
+	all := map[string]uint32{}
+	var sb strings.Builder
+	// indexKVStore.Flush uses block size math.MaxInt16
+	sb.WriteString("bucket 32767")
+	for _, g := range groups {
+		if len(g) == 0 {
+			continue
+		}
+		sb.WriteString(" |")
+		for _, i := range g {
+			fmt.Fprintf(&sb, " %s:%d", hx(keys[i]), vals[i])
+			all[string(keys[i])] = vals[i]
+		}
+	}
+	ok := false
+	ntries := 0
+	c.Guard(sb.String(), func() string {
+		for _, g := range groups {
+			if len(g) == 0 {
+				continue
+			}
+			for _, i := range g {
+				v := vals[i]
+				if _, _, err := store.GetOrCreateValue(bucketID, keys[i], func() (uint32, error) { return v, nil }); err != nil {
+					return "create-error"
+				}
+			}
+			store.PrepareFlush()
+			if err := store.Flush(); err != nil {
+				return "flush-error"
+			}
+			ntries++
+		}
+		ok = true
+		return fmt.Sprintf("ok tries=%d", ntries)
+	})
+	if !ok {
+		return
+	}
+	c.NonTrivial()
+	c.Branch("bucket-via-real-kv-store")
+	var sorted []pair
+	for k, v := range all {
+		sorted = append(sorted, pair{[]byte(k), v})
+	}
+	sort.Slice(sorted, func(i, j int) bool { return bytes.Compare(sorted[i].k, sorted[j].k) < 0 })
+	for _, k := range genProbes(r, keys, 10) {
+		var v uint32
+		var found bool
+		c.Guard("bget "+hx(k), func() string {
+			var err error
+			v, found, err = store.GetValue(bucketID, k)
+			if err != nil {
+				return "error"
+			}
+			return showOpt(v, found)
+		})
+		ev, eok := all[string(k)]
+		if found != eok || (found && v != ev) {
+			c.Fail("kvstore-get-mismatch", fmt.Sprintf("GetValue(%s)=%s, union says %s", hx(k), showOpt(v, found), showOpt(ev, eok)))
+		}
+	}
+	c.Guard("bvalues", func() string {
+		ids, err := store.GetValues(bucketID)
+		if err != nil {
+			return "error"
+		}
+		sort.Slice(ids, func(i, j int) bool { return ids[i] < ids[j] })
+		if len(ids) != len(all) {
+			c.Fail("kvstore-values-mismatch", fmt.Sprintf("GetValues returned %d values, union has %d", len(ids), len(all)))
+		}
+		return showU32(ids)
+	})
+	c.Guard("bpairs", func() string {
+		bm := roaring.New()
+		for _, p := range sorted {
+			bm.Add(p.v)
+		}
+		res := map[uint32]string{}
+		if err := store.CollectKVs(bucketID, bm, res); err != nil {
+			return "error"
+		}
+		var ps []pair
+		for v, k := range res {
+			ps = append(ps, pair{[]byte(k), v})
+		}
+		sort.Slice(ps, func(i, j int) bool { return bytes.Compare(ps[i].k, ps[j].k) < 0 })
+		if !samePairs(ps, sorted) {
+			c.Fail("kvstore-collect-mismatch", "CollectKVs differs from the union")
+		}
+		return showPairs(ps)
+	})
+	for _, p := range [][]byte{{}, keys[r.Intn(len(keys))][:1], keys[r.Intn(len(keys))]} {
+		limit := []int{1, 3, 1000}[r.Intn(3)]
+		c.Guard(fmt.Sprintf("bsuggest %s %d", hx(p), limit), func() string {
+			got, err := store.Suggest(bucketID, string(p), limit)
+			if err != nil {
+				return "error"
+			}
+			ks := make([][]byte, len(got))
+			for i := range got {
+				ks[i] = []byte(got[i])
+			}
+			var want []string
+			for _, kv := range sorted {
+				if bytes.HasPrefix(kv.k, p) && len(want) < limit {
+					want = append(want, string(kv.k))
+				}
+			}
+			if strings.Join(got, "\x01") != strings.Join(want, "\x01") {
+				c.Fail("kvstore-suggest-mismatch", fmt.Sprintf("Suggest(%s,%d) = %s", hx(p), limit, showKeys(ks)))
+			}
+			return showKeys(ks)
+		})
+	}
+	// like dispatch
+	for _, pat := range likePatterns(r, keys) {
+		var ids []uint32
+		c.Guard("blikepat "+hx(pat), func() string {
+			var err error
+			ids, err = store.FindValuesByExpr(bucketID, &stmt.LikeExpr{Key: "k", Value: string(pat)})
+			if err != nil {
+				return "error"
+			}
+			sort.Slice(ids, func(i, j int) bool { return ids[i] < ids[j] })
+			return showU32(ids)
+		})
+		var want []uint32
+		for _, kv := range sorted {
+			if likeRef(pat, kv.k) {
+				want = append(want, kv.v)
+			}
+		}
+		sort.Slice(want, func(i, j int) bool { return want[i] < want[j] })
+		if showU32(ids) != showU32(want) {
+			c.Fail("kvstore-like-mismatch", fmt.Sprintf("like %q = %s want %s", pat, showU32(ids), showU32(want)))
+		}
+		c.Branch("like-checked")
+	}
+	// regexp / equals / in (oracle only)
+	for i := 0; i < 4; i++ {
+		k := keys[r.Intn(len(keys))]
+		a := r.Intn(len(k) + 1)
+		pat := regexp.QuoteMeta(string(k[a:])) + []string{"", "$", ".*", "^" + regexp.QuoteMeta(string(k[:a]))}[r.Intn(4)]
+		if r.Intn(3) == 0 {
+			pat = "^" + regexp.QuoteMeta(string(k[:a])) + ".*"
+		}
+		rp, err := regexp.Compile(pat)
+		if err != nil {
+			continue
+		}
+		func() {
+			defer func() {
+				if rec := recover(); rec != nil {
+					c.Fail("panic", fmt.Sprintf("FindValuesByExpr(regexp %q) panicked: %v", pat, rec))
+				}
+			}()
+			ids, err := store.FindValuesByExpr(bucketID, &stmt.RegexExpr{Key: "k", Regexp: pat})
+			if err != nil {
+				c.Note("regexp error " + err.Error())
+				return
+			}
+			sort.Slice(ids, func(i, j int) bool { return ids[i] < ids[j] })
+			var want []uint32
+			for _, kv := range sorted {
+				if rp.Match(kv.k) {
+					want = append(want, kv.v)
+				}
+			}
+			sort.Slice(want, func(i, j int) bool { return want[i] < want[j] })
+			if showU32(ids) != showU32(want) {
+				c.Fail("kvstore-regexp-mismatch", fmt.Sprintf("regexp %q = %s want %s", pat, showU32(ids), showU32(want)))
+			}
+			c.Note(fmt.Sprintf("regexp %q matched %d", pat, len(ids)))
+			c.Branch("kvstore-regexp-checked")
+		}()
+	}
+}
+
+// likeRef: the meaning of a like pattern ('*' only at the ends), independent of the dispatch.
+func likeRef(pat, key []byte) bool {
+	if len(pat) == 0 {
+		return false
+	}
+	if string(pat) == "*" {
+		return true
+	}
+	pre, suf := pat[0] == '*', pat[len(pat)-1] == '*'
+	switch {
+	case !pre && suf:
+		return bytes.HasPrefix(key, pat[:len(pat)-1])
+	case pre && !suf:
+		return bytes.HasSuffix(key, pat[1:])
+	case pre && suf:
+		return bytes.Contains(key, pat[1:len(pat)-1])
+	}
+	return bytes.Equal(pat, key)
 }
 
 // ---------------------------------------------------------------- witness cases (replayed on every run)
@@ -1386,6 +1837,31 @@ func (area) Run(c *core.Ctx) error {
 			bitvecCase(c, r)
 		case i%10 == 3 || i%10 == 8:
 			bucketCase(c, r, c.Tier, i%10 == 3)
+		case i%40 == 19 || i%40 == 29:
+			// label counts / node counts k*512 and k*512±1, node counts k*64 and k*64±1
+			byLabels := i%40 == 19
+			var target int
+			if byLabels {
+				target = []int{512, 1024, 1536}[r.Intn(3)] + r.Intn(3) - 1
+			} else {
+				target = []int{64, 128, 192, 512}[r.Intn(4)] + r.Intn(3) - 1
+			}
+			keys, ok := genKeysTarget(r, target, byLabels)
+			kind := "nodes"
+			if byLabels {
+				kind = "labels"
+			}
+			if ok {
+				c.Branch(fmt.Sprintf("keys-target-%s-%d", kind, target))
+			} else {
+				c.Branch("keys-target-missed")
+			}
+			vals := genVals(r, len(keys))
+			trieCase(c, r, keys, vals, genProbes(r, keys, 16), true)
+		case i%10 == 6 && i%20 == 6:
+			kvstoreCase(c, r)
+		case c.Tier == "thorough" && i%1000 == 501:
+			fullTrieMergeCase(c, r)
 		default:
 			big := i%40 == 9
 			keys, shape := genKeys(r, c.Tier, big)
